@@ -315,11 +315,13 @@ def matched_rule(ctx, r):
     ebs = ExprBuilder(sp)
     news = [c for c in sp.calls() if c.path.endswith("Atomic::new")]
     named = {}
-    for l_i, l_ in enumerate(sp.locals):
-        if l_.get("name") in ("matched", "searched", "broken_pipe"):
-            e_ = ebs.local(l_i)
-            named[l_["name"]] = [W.const_val(c_[3][0]) for c_ in walk(e_) if c_.k == "call" and c_[1].endswith("Atomic::new") and c_[3]]
-    if named.get("matched") == [0]:
+    # the flag that is the function's answer: the atomic read for the Ok(..) it returns, back to its Atomic::new
+    for bb_, j_, st_ in sp.stmts():
+        if st_["k"] == "assign" and st_["place"]["l"] == 0 and st_["rv"]["k"] == "agg" and st_["rv"].get("variant") == "Ok":
+            e_ = ebs.operand(st_["rv"]["ops"][0])
+            named.setdefault("matched", [])
+            named["matched"] += [W.const_val(c_[3][0]) for c_ in walk(e_) if c_.k == "call" and c_[1].endswith("Atomic::new") and c_[3]]
+    if named.get("matched") and set(named["matched"]) == {0}:
         r.ok("search_parallel|init", "matched starts as false", fn=sp)
     else:
         r.bad("search_parallel|init", "the shared `matched` flag of search_parallel does not start as false (%s): a run without any "
@@ -562,7 +564,7 @@ def pipe_rule(ctx, r):
         if unstored:
             stored = []
         ebo = ExprBuilder(outer)
-        loads = cond_switches(outer, lambda e: is_call(e, LOAD), ebo)
+        loads = cond_switches(outer, lambda e: is_call(e, LOAD, "core::sync::atomic::Atomic::into_inner"), ebo)
         reads_back = False
         for bb, te, fe, e in loads:
             s_ = Sccp(outer, stop_blocks=loop_headers(outer)).run([(te[1], {})])
